@@ -668,6 +668,13 @@ impl World {
             }
         }
 
+        // live mounts that the walk cannot reach any more (a later mount on "/" or on a parent path shadows their mount
+        // point): the node ids a client obtained earlier stay valid as long as the mount exists, and requests on them
+        // must reach that backend with that mount's id mapping
+        let reached: BTreeSet<usize> = reach.iter().map(|(ii, _)| *ii).collect();
+        let shadowed: Vec<(usize, u64)> = self.insts.iter().enumerate().filter(|(i, inst)| inst.alive && inst.slot != 0 && !reached.contains(i)).map(|(i, inst)| (i, ((inst.slot as u64) << 56) | KIND_ROOT[inst.kind])).collect();
+        reach.extend(shadowed);
+
         // ---- 2. requests on every reachable mount
         for (ii, ri) in reach.clone() {
             let inst = self.insts[ii].clone();
@@ -902,6 +909,9 @@ fn acts(ids: bool, cycles: bool) -> Vec<Act> {
     for p in 0..PATHS.len() {
         for &kd in kinds {
             for &mp in maps {
+                // id runs: one backend kind per (path, mapping), alternating between the kind whose root directory is
+                // inode 1 (what most backends use; its node id is slot << 56 | 1) and the kind whose root is inode 7
+                let kd = if ids { (p + mp) % 2 } else { kd };
                 v.push(Act::Mount { kind: kd, path: p, map: mp });
             }
         }
